@@ -20,8 +20,10 @@
 (*              the decision to acquire until the token is stored)          *)
 (*                                                                          *)
 (* Every property about outgoing traffic is judged on `lastSent`, which     *)
-(* captures, at the send step, the clock, the challenge in force and the    *)
-(* call's parameters.                                                       *)
+(* captures, at the send step, the clock, the call's parameters and the     *)
+(* challenge the call's authorization decision answers (with calls in       *)
+(* progress together the host's challenge in force may already have been    *)
+(* replaced by another call's when the message leaves).                     *)
 (***************************************************************************)
 EXTENDS Integers, Sequences, FiniteSets, TLC
 
@@ -110,6 +112,7 @@ Begin(s, h, req, want, body) ==
   /\ Set(s, [pc |-> "init", h |-> h, req |-> req, want |-> want, body |-> body,
              open |-> IF body = "none" THEN 0 ELSE 1,   \* request bodies handed out and not yet closed
              callerAuth |-> NoCred,                     \* Authorization on the CALLER's request object
+             basis |-> NoChal,                          \* the challenge the current authorization decision answers
              attempts |-> 0, auth |-> NoCred, acquired |-> FALSE, fromCache |-> FALSE, hadCover |-> FALSE,
              mode |-> "-", ask |-> {}, narrow |-> {}, narrowed |-> FALSE, method |-> "-",
              rresp |-> NoRResp, tresp |-> NoTResp, raw2 |-> 0, status |-> 0])
@@ -149,7 +152,7 @@ MayKeep(h) == {t \in toks[h] : t.exp - clock > 0 /\ t.exp - clock <= TPS}
 \* setAuthorization: prune the cache, then UseCached | AcquireWithRefresh | AddBasic | NoAuth
 Decide(s) ==
   /\ calls[s].pc = "decide"
-  /\ LET c == calls[s]  h == c.h IN
+  /\ LET c == [calls[s] EXCEPT !.basis = chal[calls[s].h]]  h == c.h IN
      /\ lock[h] = 0
      /\ \E extra \in SUBSET MayKeep(h) :
           LET kept == MustKeep(h) \cup extra
@@ -256,7 +259,7 @@ TokFail(s) ==
 Send(s) ==
   /\ calls[s].pc \in {"send1", "send2"}
   /\ LET c == calls[s] IN
-     /\ lastSent' = [k |-> "reg", s |-> s, at |-> clock, to |-> c.h, for |-> c.h, ch |-> chal[c.h], attempt |-> c.attempts + 1,
+     /\ lastSent' = [k |-> "reg", s |-> s, at |-> clock, to |-> c.h, for |-> c.h, ch |-> c.basis, attempt |-> c.attempts + 1,
                      cred |-> c.auth, scope |-> {}, mode |-> "-", narrowed |-> FALSE, req |-> c.req, want |-> c.want,
                      fromCache |-> c.fromCache, acquired |-> c.acquired, text |-> "any"]
      /\ Set(s, [c EXCEPT !.pc = IF c.pc = "send1" THEN "resp1wait" ELSE "resp2wait", !.attempts = @ + 1, !.open = 0])
@@ -280,9 +283,10 @@ PassThrough(s) ==
 \* AcquireForChallenge | AddBasic | GiveUp.  Which of several usable offers is taken is not fixed.
 OnChallenge(s) ==
   /\ calls[s].pc = "got1"
-  /\ LET c == calls[s]  h == c.h IN
-     /\ c.rresp.status = 401 /\ lock[h] = 0
-     /\ \E o \in Usable(c.rresp.offers) :
+  /\ LET c0 == calls[s]  h == c0.h IN
+     /\ c0.rresp.status = 401 /\ lock[h] = 0
+     /\ \E o \in Usable(c0.rresp.offers) :
+          LET c == [c0 EXCEPT !.basis = o] IN
           /\ chal' = [chal EXCEPT ![h] = o]
           /\ IF o.scheme = "bearer" THEN
                /\ Set(s, [c EXCEPT !.pc = "tok", !.mode = "chal", !.ask = o.scope \cup c.want \cup c.req,
